@@ -213,6 +213,13 @@ func stackConfigs(rng *rand.Rand, t *TopoSpec) []StackCfg {
 			ed.MaxRRsetSigs = pick(rng, uint32(1), 2)
 		}
 	}
+	if t.Restart != nil && t.Restart.Via != "" && ed.Label == "enforce-default" {
+		// alias kinds: a small internal-query budget with every other budget
+		// at its default — the alias chase (on the miss path for the first
+		// client, on the cache-hit path for the second) is what crosses it
+		ed.Label = "enforce-internal"
+		ed.MaxInternal = pick(rng, uint32(1), 1, 2, 3)
+	}
 	return []StackCfg{off, sh, es, em, ed}
 }
 
@@ -471,8 +478,17 @@ func (run *runner) topology(index int) {
 				// is a refused REQUIRED debit)
 				// honest servers, resolvable data: this SERVFAIL is the
 				// budget's doing, and the client negotiated EDNS
-				r.Violation("enforce/over-budget-servfail-without-ede",
-					fmt.Sprintf("%s under %s (outbound budget %d): query %d crossed %v and was answered SERVFAIL without any Extended DNS Error although the client used EDNS", spec.shape(), e.cfg.Label, e.cfg.outboundBudget(), qi+1, obs.Exhausted), c)
+				sig, how := "enforce/over-budget-servfail-without-ede", ""
+				if qi == 1 && obs.QuestionAsked == 0 && hasAlias(e.q1) {
+					// known finding #1 (FINDINGS.md): the alias was answered
+					// from the cache (the question itself never went
+					// upstream) and the budget was crossed by the chase of
+					// its target on the cache-hit path
+					sig += "/cached-alias-chase"
+					how = " — the alias itself came from the cache (the first client's reply carried it; the question was not asked upstream again), the budget was crossed while its target was chased"
+				}
+				r.Violation(sig,
+					fmt.Sprintf("%s under %s (outbound budget %d, internal budget %d): query %d crossed %v and was answered SERVFAIL without any Extended DNS Error although the client used EDNS%s", spec.shape(), e.cfg.Label, e.cfg.outboundBudget(), e.cfg.MaxInternal, qi+1, obs.Exhausted, how), c)
 			}
 			if !over {
 				r.Count("enforce_crossed_servfail_with_other_ede", 1)
@@ -553,6 +569,20 @@ func (run *runner) topology(index int) {
 			short(obsOutcome(res.q2)), obsEDE(res.q2), obsPackets(res.q2), obsExhausted(res.q2))
 	}
 	r.Sample(s)
+}
+
+// hasAlias: the reply carries a CNAME or DNAME in its answer section.
+func hasAlias(o *QueryObs) bool {
+	if o == nil || o.reply == nil {
+		return false
+	}
+	for _, rr := range o.reply.Answer {
+		switch rr.Header().Rrtype {
+		case dns.TypeCNAME, dns.TypeDNAME:
+			return true
+		}
+	}
+	return false
 }
 
 func short(s string) string {
